@@ -231,7 +231,8 @@ class Gen:
     def term(self, shape=None):
         rng = self.rng
         shape = shape or self.r(['polyexp', 'polyexp', 'sincos', 'sincos', 'sincos', 'product', 'delta', 'delta', 'fn', 'fn',
-                                 'fn', 'fnprod', 'step', 'step', 'hyp', 'cexp', 'const', 'undef', 'undef', 'ustep'])
+                                 'fn', 'fnprod', 'step', 'step', 'rstep', 'rstep', 'rstep', 'hyp', 'cexp', 'const', 'undef', 'undef',
+                                 'ustep'])
         c = self.coef()
         key = {'kind': shape}
         if shape == 'const':
@@ -273,6 +274,29 @@ class Gen:
             tk.append('step %s %s' % (fstr(a), fstr(b)))
             tx.append('Heaviside(%s)' % self.lin(a, b))
             key['scaled'] = a != 1
+        elif shape == 'rstep':
+            # signal switched OFF at T > 0: g(t) * u(a t + b), a < 0 < b, T = -b/a; optionally windowed with u(t) or a
+            # forward step u(t - d), d < T
+            tk, tx = self.smooth_atoms(self.r([[], [], ['tpow'], ['exp'], ['exp'], ['tpow', 'exp']]))
+            a = -self.r([Fraction(1), Fraction(1), Fraction(1), Fraction(2), Fraction(1, 2), Fraction(3)])
+            T = self.r([Fraction(1, 2), Fraction(1), Fraction(3, 2), Fraction(2)])
+            b = -a * T
+            front = self.r(['none', 'none', 'u(t)', 'forward', 'late'])
+            if front == 'u(t)':
+                tk.append('step 1 0')
+                tx.append('Heaviside(t)')
+            elif front == 'forward':
+                d = T / 2
+                tk.append('step 1 %s' % fstr(-d))
+                tx.append('Heaviside(%s)' % self.lin(1, -d))
+            elif front == 'late':
+                # forward step after the switch-off: the product is zero
+                d = T + Fraction(1, 2)
+                tk.append('step 1 %s' % fstr(-d))
+                tx.append('Heaviside(%s)' % self.lin(1, -d))
+            tk.append('step %s %s' % (fstr(a), fstr(b)))
+            tx.append('Heaviside(%s)' % self.lin(a, b))
+            key.update({'scaled': a != -1, 'front': front})
         elif shape == 'delta':
             tk, tx = self.smooth_atoms(self.r([[], [], ['tpow'], ['exp'], ['trig'], ['tpow', 'exp']]))
             n = self.r([0, 0, 0, 1, 1, 2, 3])
@@ -387,7 +411,7 @@ def run(chk, replay=None):
     for nm in ['sin_cos', 'function', 'func', 'integral', 'derivative_undef', 'integrate_0', 'integrate_0minus']:
         wrap(nm)
 
-    n_cases = 100 if quick else 520
+    n_cases = 85 if quick else 520
     gen = Gen(rng)
     chk.coverage['rule'] = ('each case = a sum of 1-3 generated raw terms (shapes: constant, polynomial*exp, complex exp, sinh/cosh, sin/cos fast path '
                             'with phase/damping/delay, general products, steps and deltas (derivatives, scaled, delayed) times smooth factors, '
@@ -598,6 +622,13 @@ def run(chk, replay=None):
                    {'kind': 'delta', 'order': 1, 'at_origin': True, 'scaled': True, 'scaled_derivative': True})])
     fixed.append([('prod 1 rect 1 1/4', '(1)*rect(t + (1/4))',
                    {'kind': 'fn', 'fn': 'rect', 'scale_is_one': True, 'shift_is_zero': False, 'support_before_zero': True})])
+    # time-reversed steps (windows): u(1 - t), g(t) u(T - t), u(t) u(T - t), u(t - d) u(T - t), u(3 - 2 t)
+    fixed.append([('prod 1 step -1 1', '(1)*Heaviside(-t + (1))', {'kind': 'rstep', 'scaled': False, 'front': 'none'})])
+    fixed.append([('prod 1 exp -2 step -1 1', '(1)*exp((-2)*t)*Heaviside(-t + (1))', {'kind': 'rstep', 'scaled': False, 'front': 'none'})])
+    fixed.append([('prod 1 tpow 1 step -1 2', '(1)*t**1*Heaviside(-t + (2))', {'kind': 'rstep', 'scaled': False, 'front': 'none'})])
+    fixed.append([('prod 1 step 1 0 step -1 1', '(1)*Heaviside(t)*Heaviside(-t + (1))', {'kind': 'rstep', 'scaled': False, 'front': 'u(t)'})])
+    fixed.append([('prod 1 step -2 3', '(1)*Heaviside(-2*t + (3))', {'kind': 'rstep', 'scaled': True, 'front': 'none'})])
+    fixed.append([('prod 1 step 1 -1 step -1 2', '(1)*Heaviside(t + (-1))*Heaviside(-t + (2))', {'kind': 'rstep', 'scaled': False, 'front': 'forward'})])
     for n in (1, 2, 3):
         for _ in range(2):
             fixed.append([('dundef 1 %d' % n, '(1)*Derivative(x(t), t, %d)' % n, {'kind': 'undef', 'sub': 'deriv', 'order': n})])
